@@ -16,7 +16,7 @@ from . import c07
 ID = "C08"
 LEVEL = "exploration"
 TAGS = ["a", "b", "c"]
-UNIVERSE = ["a", "b", "c", "d", "a:2"]
+UNIVERSE = ["a", "b", "c", "d", "a:2", "a,b"]
 SUBSETS = list(T.subsets(UNIVERSE))
 SUBSETS2 = c07.SUBSETS
 LIMIT = {"a": 2, "b": 3, "c": 1, "d": 5}
@@ -34,7 +34,8 @@ ASSUMPTIONS = [
 ]
 REQUIRED = {"v1.meaning": {"quick": 3000, "thorough": 50000}, "v1.autodetect_meaning": {"quick": 3000, "thorough": 50000},
             "v2.autodetect_meaning": {"quick": 2000, "thorough": 50000}, "mixed.rejected": {"quick": 300, "thorough": 5000},
-            "history.rejected_again": {"quick": 300, "thorough": 5000}}
+            "history.rejected_again": {"quick": 300, "thorough": 5000},
+            "history.config_after_other_protocol": {"quick": 200, "thorough": 5000}}
 EXHAUSTIVE = True
 EXHAUSTIVE_SCOPE = "all CNFs with <=2 groups x <=3 alternatives over 3 tags; single-group CNFs with every decoration combination"
 NSHARDS = {"quick": 8, "thorough": 16}
@@ -92,19 +93,39 @@ def render(groups, decor):
     return T.render_v1_groups(groups, dd)
 
 
-def check_cnf(lab, mon, groups, args, sample=False):
+RENAME = {"a": "android", "b": "order", "c": "notify", "d": "sandbox"}      # names that CONTAIN the v2 operator words
+_REN = re.compile(r"(?<![A-Za-z])([abcd])(?![A-Za-z])")
+
+
+def renamed(text):
+    return _REN.sub(lambda m: RENAME[m.group(1)], text)
+
+
+def check_cnf(lab, mon, groups, args, sample=False, rename=False):
+    if rename:
+        args = [renamed(a) for a in args]
     ast = T.cnf_to_ast(groups)
     want = T.truth_table(ast, SUBSETS)
     nlits = sum(len(g) for g in groups)
     nontrivial = nlits >= 2 or any(neg for g in groups for neg, _ in g)
-    for form in ("list", "string"):
-        text = list(args) if form == "list" else " ".join(args)
+    forms = ["list", "string"]
+    if any("," in a for a in args):
+        forms.append("list_spaced")
+    for form in forms:
+        if form == "list_spaced":
+            # blanks beside the commas INSIDE one list argument (a quoted --tags="@a, -@b"): still one or-group
+            sep = (", ", " , ", " ,")[sum(map(len, args)) % 3]
+            text = [a.replace(",", sep) for a in args]
+        else:
+            text = list(args) if form == "list" else " ".join(args)
         for proto, mname in ((lab.P.V1, "v1.meaning"), (lab.P.AUTO_DETECT, "v1.autodetect_meaning")):
             case = {"kind": "cnf", "groups": groups, "text": text, "protocol": proto.name}
+            if rename:
+                case["tag_names"] = RENAME
             mon.case(case, nontrivial)
             try:
                 e = lab.make(text, proto)
-                got = T.truth_table_of(e.check, SUBSETS)
+                got = T.truth_table_of((lambda tags: e.check([renamed(t) for t in tags])) if rename else e.check, SUBSETS)
                 mon.check(mname, got == want, lambda: dict(case=case, want=want, got=got, parsed=repr(e)))
                 mon.seen("autodetect_class" if proto is lab.P.AUTO_DETECT else "v1_class", type(e).__name__)
             except Exception as ex:
@@ -189,6 +210,49 @@ def parse_history(lab, mon, rng, ast, mixed):
         check_mixed(lab, mon, m, as_list=first_as_list, monitor="history.rejected_again", history="same text again")
         check_mixed(lab, mon, m, as_list=not first_as_list, monitor="history.rejected_again", history="other argument form of the same text")
 
+def config_history(lab, mon, rng, gv):
+    """Configuration objects in one process: one that selects a non-default protocol, then one with the default
+    (auto-detect) whose --tags are written in the OTHER dialect: the second is read exactly as if it were alone."""
+    from behave.configuration import Configuration
+    saved = getattr(lab.P, "_current", None)
+    try:
+        first_proto = rng.choice([lab.P.V1, lab.P.V2])
+        groups1 = [rng.choice(gv)]
+        first_text = ",".join(render(groups1, decor_random(rng))) if first_proto is lab.P.V1 else "a and not b"
+        try:
+            Configuration(["--tags=%s" % first_text], load_config=False, tag_expression_protocol=first_proto)
+        except Exception:
+            pass
+        if first_proto is lab.P.V1:
+            ast = T.random_tree(rng, ["a", "b", "c", "d"], rng.choice([1, 2]))
+            if ast[0] == "lit":
+                ast = ["not", ast]
+            text2 = [T.render_v2(ast, rng, "min", rng.random() < 0.5)]
+            want = T.truth_table(ast, SUBSETS)
+        else:
+            groups = [rng.choice(gv) for _ in range(rng.choice([1, 2]))]
+            if sum(len(g) for g in groups) < 2 and not any(neg for g in groups for neg, _ in g):
+                groups = groups + [[[True, "d"]]]
+            text2 = render(groups, lambda gi, ai: {"neg_char": "-", "at": True})
+            want = T.truth_table(T.cnf_to_ast(groups), SUBSETS)
+        case = {"kind": "config-history", "first": [first_proto.name, first_text], "second_tags": text2}
+        mon.case(case, True)
+        try:
+            c2 = Configuration(["--tags=%s" % t for t in text2], load_config=False)
+            got = T.truth_table_of(c2.tag_expression.check, SUBSETS)
+            mon.check("history.config_after_other_protocol", got == want, lambda: dict(case=case, want=want, got=got, parsed=repr(c2.tag_expression)))
+        except Exception as ex:
+            mon.check("history.config_after_other_protocol", False, dict(case=case, error=repr(ex)))
+    finally:
+        if saved is None:
+            if "_current" in lab.P.__dict__:
+                try:
+                    type.__delattr__(lab.P, "_current")
+                except Exception:
+                    lab.P.use(lab.P.DEFAULT)
+        else:
+            lab.P.use(saved)
+
 
 def run(spec, mon):
     lab = Lab()
@@ -224,6 +288,10 @@ def run(spec, mon):
     for _ in range(150 if tier == "quick" else 6000):
         groups = [rng.choice(gv4) for _ in range(rng.choice([2, 3, 3, 4]))]
         check_cnf(lab, mon, groups, render(groups, decor_random(rng)))
+        if rng.random() < 0.4:
+            groups = [rng.choice(gv4) for _ in range(rng.choice([1, 2]))]
+            check_cnf(lab, mon, groups, render(groups, decor_random(rng)), rename=True)
+            mon.seen("tag_name_class", "contains_operator_word")
     # v2 renderings under AUTO_DETECT
     trees = T.enum_trees(c07.OPERANDS, 2, 2) if tier == "quick" else T.enum_trees(c07.OPERANDS, 3, 3)
     for i, ast in enumerate(trees):
@@ -240,6 +308,7 @@ def run(spec, mon):
         for m in mixed:
             check_mixed(lab, mon, m, as_list=rng.random() < 0.3)
         parse_history(lab, mon, rng, ast, mixed[:3])
+        config_history(lab, mon, rng, gv)
         if rng.random() < 0.3:
             # valid texts twice in a row as well (string form, then list form): same truth table both times
             groups = [rng.choice(gv4) for _ in range(rng.choice([1, 2]))]
